@@ -215,6 +215,12 @@ static void vh_init (int argc, char **argv, const char *mon, const char *prop)
 	{	static char obuf [1 << 16] ; setvbuf (vh_out, obuf, _IOFBF, sizeof (obuf)) ; }
 	/* the library itself printf()s (sds.c, ALAC): give stdio its buffers now so they never count as leaks */
 	{	static char sbuf [1 << 14] ; if (vh_out != stdout) setvbuf (stdout, sbuf, _IOFBF, sizeof (sbuf)) ; }
+	/* private temp directory per monitor process: ALAC temp-file names come from a time-seeded PRNG, and monitors that pin the
+	** clock would otherwise make concurrent shards collide on the same name */
+	{	const char *td = getenv ("TMPDIR") ; static char priv [400] ;
+		snprintf (priv, sizeof (priv), "%s/p%d", td && *td ? td : "/tmp", (int) getpid ()) ;
+		if (mkdir (priv, 0700) == 0 || errno == EEXIST) setenv ("TMPDIR", priv, 1) ;
+		}
 	__sanitizer_set_death_callback (vh_death) ;
 	signal (SIGALRM, vh_alarm) ;
 	signal (SIGPIPE, SIG_IGN) ;
